@@ -37,13 +37,22 @@ VF_E bool gt_ms_s(int a, int b) { return MS{a} > S{b}; }
 VF_E bool ge_ms_s(int a, int b) { return MS{a} >= S{b}; }
 VF_E bool lt_r(int a, int b) { return R13{a} < R57{b}; }
 VF_E bool eq_r(int a, int b) { return R13{a} == R57{b}; }
-using SS = D<short, sec>; using SM = D<short, milli>;
-VF_E short div_dd(short a, short b) { return static_cast<short>(SM{a} / SM{b}); }
-VF_E short mod_dd(short a, short b) { return (SM{a} % SM{b}).count(); }
-VF_E short mul_eq(short a, short k) { SM d{a}; d *= k; return d.count(); }
-VF_E short div_eq(short a, short k) { SM d{a}; d /= k; return d.count(); }
-VF_E short mod_eq(short a, short k) { SM d{a}; d %= k; return d.count(); }
-VF_E short mod_eq_d(short a, short b) { SM d{a}; d %= SM{b}; return d.count(); }
+// mixed representation widths: the narrower operand is converted to the common type duration<long long, milli>
+using LMS = D<long long, milli>; using MIN32 = D<int, minute>; using UMS = D<unsigned long long, milli>; using UMIN = D<unsigned, minute>;
+VF_E long long add_lms_min(long long a, int b) { return (LMS{a} + MIN32{b}).count(); }
+VF_E long long sub_lms_min(long long a, int b) { return (LMS{a} - MIN32{b}).count(); }
+VF_E bool eq_lms_min(long long a, int b) { return LMS{a} == MIN32{b}; }
+VF_E bool lt_lms_min(long long a, int b) { return LMS{a} < MIN32{b}; }
+VF_E bool gt_min_lms(int b, long long a) { return MIN32{b} > LMS{a}; }
+VF_E long long conv_min_lms(int b) { return LMS{MIN32{b}}.count(); }
+VF_E unsigned long long conv_umin_ums(unsigned b) { return UMS{UMIN{b}}.count(); }
+using SS = D<signed char, sec>; using SM = D<signed char, milli>;
+VF_E signed char div_dd(signed char a, signed char b) { return static_cast<signed char>(SM{a} / SM{b}); }
+VF_E signed char mod_dd(signed char a, signed char b) { return (SM{a} % SM{b}).count(); }
+VF_E signed char mul_eq(signed char a, signed char k) { SM d{a}; d *= k; return d.count(); }
+VF_E signed char div_eq(signed char a, signed char k) { SM d{a}; d /= k; return d.count(); }
+VF_E signed char mod_eq(signed char a, signed char k) { SM d{a}; d %= k; return d.count(); }
+VF_E signed char mod_eq_d(signed char a, signed char b) { SM d{a}; d %= SM{b}; return d.count(); }
 VF_E int neg(int a) { return (-MS{a}).count(); }
 VF_E int pos(int a) { return (+MS{a}).count(); }
 VF_E int inc(int a) { MS d{a}; ++d; return d.count(); }
@@ -74,6 +83,7 @@ VF_E int tp_inc(int t) { TPms p{MS{t}}; ++p; return p.time_since_epoch().count()
 VF_E int tp_dec(int t) { TPms p{MS{t}}; --p; return p.time_since_epoch().count(); }
 VF_E bool tp_lt(int a, int b) { return TPms{MS{a}} < TPs{S{b}}; }
 VF_E bool tp_eq(int a, int b) { return TPms{MS{a}} == TPs{S{b}}; }
+VF_E int tp_cast(int a) { return ch::time_point_cast<S>(TPms{MS{a}}).time_since_epoch().count(); }
 VF_E int tp_floor(int a) { return ch::floor<S>(TPms{MS{a}}).time_since_epoch().count(); }
 VF_E int tp_ceil(int a) { return ch::ceil<S>(TPms{MS{a}}).time_since_epoch().count(); }
 VF_E int tp_round(int a) { return ch::round<S>(TPms{MS{a}}).time_since_epoch().count(); }
